@@ -9,6 +9,7 @@ import (
 	"sort"
 	"strings"
 
+	"golang.org/x/tools/go/packages"
 	"golang.org/x/tools/go/ssa"
 )
 
@@ -22,6 +23,92 @@ type frozenFn struct {
 	Free   []string `json:"f,omitempty"`
 	Locals []string `json:"l,omitempty"`
 	Getter []string `json:"g,omitempty"` // trivial accessors the function calls (paths.go, getterKeep)
+	Sig    string   `json:"s,omitempty"` // receiver, parameter and result types (rename detection)
+}
+
+// renamedFuncs: function of the current tree -> the function of the pinned tree it is taken to be (same package or
+// receiver, same signature, the old name gone and exactly one new name that fits). Names print as in the pinned tree
+// (short), anchors resolve through it (Program.Func), and the function is not treated as a new helper.
+var renamedFuncs = map[string]string{}
+
+func sigOf(sig *types.Signature) string {
+	var parts []string
+	if r := sig.Recv(); r != nil {
+		parts = append(parts, "recv "+r.Type().String())
+	}
+	for i := 0; i < sig.Params().Len(); i++ {
+		parts = append(parts, sig.Params().At(i).Type().String())
+	}
+	parts = append(parts, "->")
+	for i := 0; i < sig.Results().Len(); i++ {
+		parts = append(parts, sig.Results().At(i).Type().String())
+	}
+	if sig.Variadic() {
+		parts = append(parts, "...")
+	}
+	return strings.Join(parts, ";")
+}
+
+// scopeOf: "(*pkg.T)" for methods, "pkg" for functions — what a rename keeps.
+func scopeOf(full string) string {
+	if i := strings.LastIndex(full, "."); i >= 0 {
+		return full[:i]
+	}
+	return full
+}
+
+func detectRenames(pkgs []*packages.Package, frozen map[string]frozenFn) map[string]string {
+	cur := map[string]string{} // full name -> signature
+	for _, pk := range pkgs {
+		if !strings.HasPrefix(pk.PkgPath, modPath) || pk.TypesInfo == nil {
+			continue
+		}
+		for _, f := range pk.Syntax {
+			if strings.HasSuffix(pk.Fset.Position(f.Pos()).Filename, "_test.go") {
+				continue
+			}
+			for _, d := range f.Decls {
+				if fd, ok := d.(*ast.FuncDecl); ok && fd.Name.Name != "init" && fd.Name.Name != "_" {
+					if obj, ok := pk.TypesInfo.Defs[fd.Name].(*types.Func); ok {
+						cur[obj.FullName()] = sigOf(obj.Type().(*types.Signature))
+					}
+				}
+			}
+		}
+	}
+	// only packages that are loaded can lose a function
+	loaded := map[string]bool{}
+	for _, pk := range pkgs {
+		loaded[pk.PkgPath] = true
+	}
+	pkgOf := func(full string) string {
+		s := strings.TrimLeft(scopeOf(full), "(*")
+		if i := strings.LastIndex(s, "."); i >= 0 && strings.Contains(full, ")") {
+			s = s[:i]
+		}
+		return strings.TrimRight(s, ")")
+	}
+	type key struct{ scope, sig string }
+	gone, fresh := map[key][]string{}, map[key][]string{}
+	for name, fz := range frozen {
+		if _, ok := cur[name]; !ok && fz.Sig != "" && loaded[pkgOf(name)] && !strings.Contains(name, "$") {
+			k := key{scopeOf(name), fz.Sig}
+			gone[k] = append(gone[k], name)
+		}
+	}
+	for name, sig := range cur {
+		if _, ok := frozen[name]; !ok {
+			k := key{scopeOf(name), sig}
+			fresh[k] = append(fresh[k], name)
+		}
+	}
+	out := map[string]string{}
+	for k, g := range gone {
+		if f := fresh[k]; len(g) == 1 && len(f) == 1 {
+			out[f[0]] = g[0]
+		}
+	}
+	return out
 }
 
 //go:embed names.json
@@ -77,6 +164,7 @@ func snapshotNames(f *ssa.Function) frozenFn {
 		}
 	}
 	sort.Strings(fz.Getter)
+	fz.Sig = sigOf(f.Signature)
 	return fz
 }
 
